@@ -23,6 +23,9 @@ Ev == Events[l]
 Cn == [Size |-> Tr.consts.Size, Chunk |-> Tr.consts.Chunk, N |-> Tr.consts.N, ResumeAt |-> "fetched"]
 
 V(c, s) == [c |-> c, s |-> s]
+\* only failures the driver injected interrupt a session legitimately; any other failure of a
+\* helper->client call is a disagreement
+Injected(f) == f \in {"raise", "disconnect"}
 IncSize(S) == IF S.inc.present THEN Len(S.inc.data) ELSE 0 - 1
 FilesOK(S, e) == e.incoming = IncSize(S) /\ e.encoding = S.enc.present
 \* the rename of the complete incoming file happens inside the helper, before the encoder asks for parameters
@@ -37,6 +40,7 @@ VStart(e) ==
 
 VGetSize(e) ==
   IF ~(H.sess.active /\ ~H.sess.sized /\ NeedsFetch(H)) THEN V("C44_Protocol_get_size", H)
+  ELSE IF e.fault # "" /\ ~Injected(e.fault) THEN V("C44_ClientCallFailed:" \o e.fault, H)
   ELSE IF e.fault # "" THEN V("", Interrupt(H))
   ELSE V("", GotSize(Cn, H))
 
@@ -44,6 +48,7 @@ VFetch(e) ==
   IF ~CanFetch(Cn, H) THEN V("C44_Protocol_fetch", H)
   ELSE IF e.offset # FetchReq(Cn, H).offset THEN V("C44_ResumeAtFetched", H)
   ELSE IF e.length # FetchReq(Cn, H).length THEN V("C44_ChunkLength", H)
+  ELSE IF e.fault # "" /\ ~Injected(e.fault) THEN V("C44_ClientCallFailed:" \o e.fault, H)
   ELSE IF e.fault # "" THEN V("", Interrupt(H))
   ELSE IF ~ClientCanServe(H, e.offset) THEN V("C44_ReaderForward", H)
   ELSE IF e.ngot # e.length \/ ~e.dataok THEN V("C44_FetchData", H)
@@ -53,6 +58,7 @@ VParams(e) ==
   LET S == Settled(H) IN
   IF ~CanEncode(S) THEN V("C44_EncodeAfterFullFetch", H)
   ELSE IF ~e.encoding \/ e.incoming THEN V("C44_PersistedLength", H)
+  ELSE IF e.fault # "" /\ ~Injected(e.fault) THEN V("C44_ClientCallFailed:" \o e.fault, H)
   ELSE IF e.fault # "" THEN V("", Interrupt(S))
   ELSE V("", S)
 
